@@ -30,8 +30,9 @@ R5 = "helper.mu,Lambda=Kernel.slotsImp"
 def plan(ctx):
     n = 160 if ctx.thorough else 36
     cases = [("problem", i) for i in range(n)] + [("higheccen", i) for i in range(12 if ctx.thorough else 3)]
-    if ctx.thorough:      # larger data sets (own case kind so that a replay does not depend on the tier)
-        cases += [("problemL", i) for i in range(40)]
+    # larger data sets (own case kind so that a replay does not depend on the tier): beyond numpy's small-array
+    # sort threshold (16) and with more epochs than any quick "problem" case
+    cases += [("problemL", i) for i in range(40 if ctx.thorough else 3)]
     return cases
 
 
@@ -140,7 +141,7 @@ def slots_vs_lean(ctx, g, pr, c, hx):
 
 
 def run_problem(ctx, g, rng, high_e=False, large=False):
-    pr = scen.make_problem(rng, n=int(rng.integers(13, 25)) if large else int(rng.integers(1, 13)))
+    pr = scen.make_problem(rng, n=int(rng.integers(17, 33)) if large else int(rng.integers(1, 13)))
     N = 6
     s_values = None
     if pr.desc["s"]["kind"] == "sampled":
